@@ -45,3 +45,9 @@ func (m *Manager) VerifPendingCounts() (uint64, uint64) {
 func (m *Manager) VerifLastSubmitted() (uint64, uint64) {
 	return m.pendingHeaders.getLastSubmittedHeaderHeight(), m.pendingData.getLastSubmittedDataHeight()
 }
+
+// VerifBatchDataEncode / VerifBatchDataDecode expose the batch cursor list codec persisted under LastBatchDataKey.
+func VerifBatchDataEncode(b [][]byte) []byte { return convertBatchDataToBytes(b) }
+
+// VerifBatchDataDecode is the inverse of VerifBatchDataEncode.
+func VerifBatchDataDecode(b []byte) ([][]byte, error) { return bytesToBatchData(b) }
